@@ -366,7 +366,12 @@ func c13GenTwin(t *rapid.T, policy string) *c13TwinCase {
 		base = genBalloonsCase(t, genOpts{Policy: polBalloons, MinOps: 6, MaxOps: 24, FillPools: true})
 		kinds = rejKindsBln
 	}
+	// the kinds rejected late (after the policy has started to rebuild its state)
+	// are the ones whose rollback can go wrong: draw them as often as all others together
 	k := rapid.SampledFrom(kinds).Draw(t, "rejKind")
+	if rapid.Bool().Draw(t, "lateRejection") {
+		k = kinds[len(kinds)-1]
+	}
 	bad := base.Config.clone()
 	k.apply(bad, base.Topo)
 	return &c13TwinCase{Case: base, Pos: rapid.IntRange(1, max(1, len(base.Ops))).Draw(t, "pos"), Kind: k.name, BadCfg: bad}
